@@ -44,7 +44,9 @@ Inners == {<<>>,
 
 ItemKinds ==
     {IAttr("a", v) : v \in {NNum(2), NNum(26), StrLit("x"), NTuple(<<NNum(2)>>), NNull, NBool(TRUE),
-                             NVar("n1"), NVar("u"), NVar("d"), NVar("nn")}}
+                             NVar("n1"), NVar("u"), NVar("d"), NVar("nn"),
+                             \* strings whose VALUE contains a template introducer (written escaped in both syntaxes)
+                             StrLit("%{y}"), StrLit("a${x}")}}
     \cup {IAttr("b", NBool(TRUE)), IAttr("c", NNum(2)), IBlock("r", <<>>, <<>>)}
     \cup {IBlock("p", ls, b) : ls \in {<<>>, <<"x">>}, b \in Inners}
     \cup {IBlock("q", ls, b) : ls \in {<<"x">>, <<"y">>, <<"x", "y">>}, b \in Inners}
